@@ -446,6 +446,15 @@ pub fn run_inputs(opts: &Opts, only: Option<Vec<Vec<u8>>>) -> Run {
             }
         };
         let reference = gen::zstd_decode(bytes, None, 400 << 20);
+        // "a block whose contents would regenerate more than 128 KiB is rejected as corrupt instead of being expanded":
+        // a frame that structurally announces such a block must not decode successfully through any entry point
+        if let Some(why) = oversize_block(bytes) {
+            run.oracle_checks += 1;
+            run.stat("frames_with_oversize_block", 1);
+            if let Some(o) = outs.iter().find(|o| o.output.is_some() && o.err.is_none() && o.panic.is_none()) {
+                run.fail("C05", "oversized_block_accepted", format!("[{}] {} succeeded ({} bytes out) on a frame with {}", label, o.what, o.output.as_ref().map(|v| v.len()).unwrap_or(0), why), replay.clone());
+            }
+        }
         for o in &outs {
             run.oracle_checks += 1;
             if let Some(p) = &o.panic {
@@ -592,4 +601,68 @@ pub fn run_inputs(opts: &Opts, only: Option<Vec<Vec<u8>>>) -> Run {
         run.notes.push("zstd::dict::from_samples failed; hostile dictionary stream skipped".into());
     }
     run
+}
+
+/// Does the (first) frame announce, in plain header fields, a block that regenerates more than 128 KiB?
+/// (Raw/RLE block with Block_Size > 128 KiB, or a compressed block whose literals section alone declares a
+/// Regenerated_Size > 128 KiB.)  Independent byte-level walk; stops at the first thing it cannot parse.
+pub fn oversize_block(b: &[u8]) -> Option<String> {
+    if b.len() < 6 || b[..4] != [0x28, 0xb5, 0x2f, 0xfd] {
+        return None;
+    }
+    let desc = b[4];
+    let (fcs, single, did) = (desc >> 6, (desc >> 5) & 1, desc & 3);
+    let mut p = 5 + if single == 1 { 0 } else { 1 } + [0usize, 1, 2, 4][did as usize];
+    p += match fcs {
+        0 => single as usize,
+        1 => 2,
+        2 => 4,
+        _ => 8,
+    };
+    const MAX: usize = 128 << 10;
+    for k in 0.. {
+        if p + 3 > b.len() {
+            return None;
+        }
+        let h = b[p] as usize | (b[p + 1] as usize) << 8 | (b[p + 2] as usize) << 16;
+        let (last, ty, size) = (h & 1, (h >> 1) & 3, h >> 3);
+        p += 3;
+        match ty {
+            0 | 1 => {
+                // (only when the block is completely present: an incremental call on a truncated block just waits)
+                if size > MAX && p + (if ty == 1 { 1 } else { size }) <= b.len() {
+                    return Some(format!("block {} of type {} with Block_Size {} > 128 KiB", k, ty, size));
+                }
+                p += if ty == 1 { 1 } else { size };
+            }
+            2 => {
+                if p + size <= b.len() && size >= 3 {
+                    let (b0, b1, b2) = (b[p] as usize, b[p + 1] as usize, b[p + 2] as usize);
+                    let (lt, sf) = (b0 & 3, (b0 >> 2) & 3);
+                    let regen = if lt < 2 {
+                        match sf {
+                            0 | 2 => b0 >> 3,
+                            1 => (b0 >> 4) + (b1 << 4),
+                            _ => (b0 >> 4) + (b1 << 4) + (b2 << 12),
+                        }
+                    } else {
+                        match sf {
+                            0 | 1 => (b0 >> 4) + ((b1 & 0x3f) << 4),
+                            2 => (b0 >> 4) + (b1 << 4) + ((b2 & 3) << 12),
+                            _ => (b0 >> 4) + (b1 << 4) + ((b2 & 0x3f) << 12),
+                        }
+                    };
+                    if regen > MAX {
+                        return Some(format!("compressed block {} whose literals section declares Regenerated_Size {} > 128 KiB", k, regen));
+                    }
+                }
+                p += size;
+            }
+            _ => return None,
+        }
+        if last == 1 {
+            return None;
+        }
+    }
+    None
 }
